@@ -37,8 +37,8 @@ Theorem C16_blueprint_prefix_refuted :
 Proof. vm_compute. split; reflexivity. Qed.
 Print Assumptions C16_blueprint_prefix_refuted.
 
-(* A folder of a producer consumed through :copy / :link (never named on the command line) leaves no
-   trace in either info: the consumer's hash does not follow its producer. *)
+(* F16d (open): a folder of a producer consumed through :copy / :link (never named on the command line) leaves no
+   trace in either info: the consumer's hash follows neither its producer nor the files of that folder. *)
 Theorem C16_folder_copy_refuted :
   let c := {| c_name := "w"; c_stage := 0; c_location := "instance"; c_exe := "ls"; c_args := [TLit "-l"];
               c_refs := [ {| d_key := "stage0.gen:copy"; d_text := "gen:copy"; d_location := "stages/stage0/gen"; d_mtime := 0;
@@ -63,3 +63,29 @@ Proof.
   cbn in P. destruct P as [P|[P|[]]]; discriminate P.
 Qed.
 Print Assumptions C16_files_concat_refuted.
+
+(* F16c (open): \b<reference>\b does not match a reference to an absolute path ('/' is not a word character:
+   no boundary after a blank, after '=' or at the start) nor a reference directly followed by a word character.
+   The reference stays as written: the token model (what the property asks for) gives two components that read
+   equal contents at two absolute paths the same info, the code gives them different arguments. *)
+Definition abs_comp (path : string) : comp :=
+  {| c_name := "A"; c_stage := 0; c_location := "instance"; c_exe := "cat"; c_args := [TLit "-n"; TLit " "; TRef 0];
+     c_refs := [ {| d_key := path ++ ":ref"; d_text := path ++ ":ref"; d_location := path; d_mtime := 0; d_prod := None;
+                    d_fileref := ""; d_method := "ref"; d_state := FFile "AAA" |} ];
+     c_backend := BLocal |}.
+Theorem C16_word_boundary_refuted :
+  resub "/dir/a.txt:ref" "file:H:ref" "cat /dir/a.txt:ref --in=/dir/a.txt:ref" = "cat /dir/a.txt:ref --in=/dir/a.txt:ref" /\
+  resub "/dir/a.txt:ref" "file:H:ref" "/dir/a.txt:ref" = "/dir/a.txt:ref" /\
+  resub "gen/out.txt:ref" "file:H:ref" "gen/out.txt:ref_1 gen/out.txt:ref" = "gen/out.txt:ref_1 file:H:ref" /\
+  let md5 := fun s => "<" ++ s ++ ">" in
+  forall fuzzy ph,
+    info_of md5 fuzzy ph (abs_comp "/dir/a.txt") = info_of md5 fuzzy ph (abs_comp "/dir/b.txt") /\
+    option_map i_args (info_of md5 fuzzy ph (abs_comp "/dir/a.txt")) = Some "-n file:<AAA>:ref" /\
+    option_map i_args (info_of_chars md5 fuzzy ph ["/dir/a.txt:ref"] [0%nat] (abs_comp "/dir/a.txt")) = Some "-n /dir/a.txt:ref" /\
+    option_map i_args (info_of_chars md5 fuzzy ph ["/dir/b.txt:ref"] [0%nat] (abs_comp "/dir/b.txt")) = Some "-n /dir/b.txt:ref" /\
+    option_map i_files (info_of_chars md5 fuzzy ph ["/dir/a.txt:ref"] [0%nat] (abs_comp "/dir/a.txt")) =
+    option_map i_files (info_of_chars md5 fuzzy ph ["/dir/b.txt:ref"] [0%nat] (abs_comp "/dir/b.txt")).
+Proof.
+  repeat split; try (vm_compute; reflexivity); destruct fuzzy; vm_compute; reflexivity.
+Qed.
+Print Assumptions C16_word_boundary_refuted.
